@@ -647,6 +647,17 @@ func runC02(c *mc.Ctx) {
 				}
 			}
 		}
+		// ... framed by what a line-oriented reader might leave or strip
+		for _, nn := range []string{"mainnet", "testnet3"} {
+			rn := refNet(nn)
+			h := bytes.Repeat([]byte{0x42}, 20)
+			pay := ref.CashEncode(rn.CashPrefix, 0, h)
+			for _, b := range []string{pay, rn.CashPrefix + ":" + pay, strings.ToUpper(pay), ref.B58CheckEncode(rn.P2PKHID, h), ref.B58CheckEncode(rn.P2SHID, h), "02" + strings.Repeat("79be667ef9dcbbac55a06295ce870b07029bfcdb2dce28d959f2815b16f81798", 1)} {
+				for _, fr := range []string{" ", "\t", "\n", "\r", "\r\n", "\x00", "\n\n", "\ufeff", "  "} {
+					subs = append(subs, sc{nn, b + fr}, sc{nn, fr + b}, sc{nn, fr + b + fr})
+				}
+			}
+		}
 		// ... and every non-ASCII rune whose case mapping is an ASCII character, at every position
 		for _, nn := range []string{"mainnet", "regtest"} {
 			rn := refNet(nn)
